@@ -16,6 +16,7 @@ import numpy as np
 
 from harness.lib import core
 from harness.lib.core import rat_str
+from harness import comp_common  # noqa: F401  (sets the import path to the tree under test, silences logging)
 
 from amisc import Component, Variable, System  # noqa: E402
 
